@@ -550,6 +550,18 @@ def expectedTypeset (s : State) : List Effect :=
         ++ (if v.readonly || v.exported then [.declare "typeset" { v with value := .none }] else [])
     | _ => [.declare "typeset" v]
 
+/-- `export -p` / `readonly -p`: the listed variables (names containing `=` are skipped by the printer); an
+    array is an assignment followed by the attribute line (always printed: the built-in name is significant) -/
+def expectedAttrListing (b : String) (vars : List Var) : List Effect :=
+  ((sortBy (·.name) vars).filter (!·.name.contains '=')).flatMap fun v =>
+    let w : Var := { v with exported := b = "export", readonly := b = "readonly" }
+    match v.value with
+    | .array vs => [Effect.assign v.name (.array vs), .declare b { w with value := .none }]
+    | _ => [.declare b w]
+
+def expectedExport (s : State) : List Effect := expectedAttrListing "export" (s.vars.filter (·.exported))
+def expectedReadonly (s : State) : List Effect := expectedAttrListing "readonly" (s.vars.filter (·.readonly))
+
 def expectedSet (s : State) : List Effect :=
   ((sortBy (·.name) (s.vars.filter (isName ·.name))).filter (·.value ≠ .none)).map fun v => .assign v.name v.value
 
@@ -568,6 +580,8 @@ def expectedSetO (s : State) : List Effect :=
     recreate the state (`alias`: outside the known cross-bracket case) -/
 def textVerdict (s : State) : String :=
   if evalScript (listTypeset s) != some (expectedTypeset s) then "FAIL:Vt:whole-listing-does-not-recreate"
+  else if evalScript (listExport s) != some (expectedExport s) then "FAIL:Xt:whole-listing-does-not-recreate"
+  else if evalScript (listReadonly s) != some (expectedReadonly s) then "FAIL:Rt:whole-listing-does-not-recreate"
   else if evalScript (listSet s) != some (expectedSet s) then "FAIL:St:whole-listing-does-not-recreate"
   else if evalScript (listTrap s) != some (expectedTrap s) then "FAIL:Tt:whole-listing-does-not-recreate"
   else if evalScript (listSetO s) != some (expectedSetO s) then "FAIL:Ot:whole-listing-does-not-recreate"
@@ -612,6 +626,7 @@ def applyOp (s : State) (op : String) : Option State :=
   | ["pn", n, a] => do pure (s.declare (← decChars n) (a.contains 'x') (a.contains 'r'))
   | ["n", n, a] => do pure (s.declare (← decChars n) (a.contains 'x') (a.contains 'r'))
   | ["a", n, vs, a] => do pure (s.setArray (← decChars n) (← decHexList vs) (a.contains 'x') (a.contains 'r'))
+  | ["aq", n, vs, a] => do pure (s.setArray (← decChars n) (← decHexList vs) (a.contains 'x') (a.contains 'r'))
   | ["e", n, v] => do
     let name ← decChars n
     if name.contains '=' then pure (s.setScalar name (← decChars v) false false) else none
